@@ -310,7 +310,9 @@ func (l c16) Exec(env *core.Env) *core.Result {
 			} else {
 				home := filepath.Join(root, name)
 				for _, e := range execs {
-					if !within(e.Path, home) && !within(e.Path, src) {
+					// an installation asks the source for its metadata; nothing else has any business with a file outside
+					// <root>/<name> - not even the source a plugin was once installed from
+					if !within(e.Path, home) && !(strings.HasPrefix(kind, "install") && within(e.Path, src)) {
 						res.Violate("C16/executed-outside-plugin-dir", key, "%s with name %q executed %s", kind, short(name), sim.Rel(e.Path))
 					}
 				}
